@@ -9,7 +9,9 @@ def new_session(**kw):
     kw.setdefault('output_streams', None)
     kw.setdefault('input_streams', None)
     kw.setdefault('peek_values', {})
-    return Session(**kw)
+    s = Session(**kw)
+    s.start()
+    return s
 
 
 ERR_RX = re.compile(br'(?m)^([A-Z][A-Za-z \?\x27]+?)(?: in (\d+))?\xff?\r?$')
@@ -36,3 +38,12 @@ def last_error(session):
 
 def screen_lines(session):
     return [b''.join(r).rstrip() for r in session.get_chars()]
+
+
+def safe_exec(session, text):
+    """session.execute, but a host exception escaping the interpreter is returned as b'<<EXC name>>'
+    (an escaping host exception is itself a finding, never a harness crash)."""
+    try:
+        return exec_capture(session, text)
+    except Exception as e:   # noqa
+        return b'<<EXC %s>>' % type(e).__name__.encode()
